@@ -97,8 +97,8 @@ pub fn coeff_upto(r: &mut Rng, n: u32) -> u128 { let q = if n == 34 { qdigits(r)
 
 pub fn exponent(r: &mut Rng) -> i32 {
     match r.below(10) {
-        0 => EMIN + r.below(45) as i32,
-        1 => EMAX - r.below(45) as i32,
+        0 => if r.chance(1, 3) { EMIN + r.below(2) as i32 } else { EMIN + r.below(45) as i32 },
+        1 => if r.chance(1, 3) { EMAX - r.below(2) as i32 } else { EMAX - r.below(45) as i32 },
         2 | 3 | 4 => r.range(-45, 45) as i32,
         5 => -6143 + r.range(-40, 40) as i32,
         _ => r.range(EMIN as i64, EMAX as i64) as i32,
@@ -231,6 +231,12 @@ pub fn cmp_pair(r: &mut Rng) -> (u128, u128) {
             while (m << j) >= P34 && m > 1 { m >>= 1; }
             let cy = (m << j).min(P34 - 1).max(1);
             let cy = if r.chance(1, 4) { cy.saturating_sub(1).max(1) } else { cy };
+            // or: the scaled value lands just above / below the word boundary 2^(64k) (carry into the next word)
+            let cy = if r.chance(1, 2) {
+                let base = if 64 * k < 128 { (1u128 << (64 * k)) / pow10(g) } else { (u128::MAX / pow10(g)) };
+                let mult = 1 + r.below(4) as u128;           // also small multiples of the boundary
+                (base * mult + r.below(4) as u128).saturating_sub(r.below(2) as u128).clamp(1, P34 - 1)
+            } else { cy };
             let e = exponent(r).clamp(EMIN, EMAX - 34);
             let cx = match r.below(3) { 0 => coeff(r, 34), 1 => P34 - 1, _ => coeff_upto(r, 34) };
             let (s1, s2) = match r.below(4) { 0 => (false, false), 1 => (true, true), 2 => (false, true), _ => (true, false) };
@@ -377,12 +383,33 @@ pub fn fma_triple(r: &mut Rng) -> (u128, u128, u128) {
 }
 
 /// Operands for conversions to integers: values near the type boundaries at every scale.
+/// Short prefixes of an integer-type boundary: the first q digits of |b| (±1, or plus a half) scaled back up, so that
+/// values with few significant digits and a positive exponent sit right at the range check (q + exp = 20 etc.).
+pub fn int_boundary_prefix(r: &mut Rng, b: i128) -> u128 {
+    let neg = b < 0;
+    let s = b.unsigned_abs().to_string();
+    let len = s.len() as u32;
+    let q = 1 + r.below(len as u64) as u32;
+    let prefix: u128 = s[..q as usize].parse().unwrap();
+    let tweak: i128 = *r.pick(&[0i128, 0, 1, -1, 2]);
+    let p = ((prefix as i128 + tweak).max(0)) as u128;
+    let extra = r.below(4) as u32;                       // trailing zeros written into the coefficient
+    let (c, e) = if r.chance(1, 3) && p < P34 / 100 {
+        // prefix plus a fraction: p.5, p.49, p.51 …
+        let f = *r.pick(&[5u128, 49, 51, 50, 99, 1]);
+        let fd = if f < 10 { 1 } else { 2 };
+        (p * pow10(fd) + f, (len - q) as i32 - fd as i32)
+    } else { (p * pow10(extra), (len - q) as i32 - extra as i32) };
+    if c < P34 { enc(neg, c, e) } else { finite(r) }
+}
+
 pub fn int_boundary_operand(r: &mut Rng) -> u128 {
     let bounds: [i128; 12] = [
         i32::MAX as i128, i32::MIN as i128, u32::MAX as i128, i64::MAX as i128, i64::MIN as i128, u64::MAX as i128,
         0, 1, -1, i32::MAX as i128 + 1, u32::MAX as i128 + 1, i64::MAX as i128 + 1,
     ];
-    match r.below(5) {
+    match r.below(6) {
+        5 => { let b = *r.pick(&bounds); int_boundary_prefix(r, b) }
         0 | 1 | 2 => {
             let b = *r.pick(&bounds);
             // value = b + off/2 (so halves are reachable), written with k extra fractional digits
@@ -436,7 +463,9 @@ pub fn near_tie_coeff(r: &mut Rng) -> (u128, u32) {
 pub fn fma_tail_triple(r: &mut Rng) -> (u128, u128, u128) {
     let q3 = qdigits(r);
     let c3 = coeff(r, q3);
-    let e3 = match r.below(4) { 0 => -6143 - q3 as i32 + 1 + r.range(-2, 36) as i32, 1 => EMAX - r.below(40) as i32, _ => exponent(r) };
+    let e3 = match r.below(4) { 0 => -6143 - q3 as i32 + 1 + r.range(-2, 36) as i32,
+                                 1 => if r.chance(1, 2) { EMAX + 34 - q3 as i32 - r.below(3) as i32 } else { EMAX - r.below(40) as i32 },
+                                 _ => exponent(r) };
     let e3 = e3.clamp(EMIN, EMAX);
     let u = (e3 + q3 as i32 - 34).max(EMIN);           // exponent of one ulp of the normalised addend
     let k = 1 + r.below(20) as u32;                    // digits of the tail pattern
